@@ -66,3 +66,9 @@ reg("C11", "model_checking",
     "no dominated tuple present, only tuples derivable without subsumption, equal to the minimal tuples for the monotone-cost families, strata above recomputed exactly; "
     "the dominance condition is checked to be a strict partial order on the unsubsumed relation.",
     EVAL_NOTE + " Hand-written program families with seeded parameters; one subsumptive relation per program.", "DESIGN.md 9 C11")
+reg("C12", "model_checking",
+    "TLC computes the least fixpoint of the lattice relation (spec/Lattice.tla: Kleene iteration, joins as constant tables) and judges the final database of every real run",
+    "For generated program families (reachability with monotone value transformers, two-column keys, several rules, downstream relations) over four finite lattices "
+    "(max chain, min chain, bit-mask union, flat) and several EDBs, TLC judges each real final database (interpreter and compiled, several -j, joins supplied as stateful user functors): "
+    "at most one tuple per key and equality with the least fixpoint; other strata recomputed by spec/Datalog.tla.",
+    EVAL_NOTE + " Hand-written families; negated atoms with a bound lattice value are not used (souffle matches them on the key only; outside the property).", "DESIGN.md 9 C12")
